@@ -49,13 +49,9 @@ def dataset(kind, which):
 
 
 # recorded findings (known_findings.json): a crash is KNOWN only at the recorded site AND for the recorded kind of combination
-TIME_AXES = {"time", "year", "month", "week", "day", "timeofday", "dayofyear", "monthofyear", "dayofmonth"}
-LOC_AXES = {"location", "lat", "lon", "elev"}
 KNOWN_CRASHES = {
     "exception:ValueError@output.py:463": lambda c, kind: c["t"] == "mapimpact" and c["m"] in ("rmsf", "ign0"),
     "exception:ValueError@output.py:1990": lambda c, kind: c["m"] == "change" and kind == "single-time",
-    "exception:OverflowError@output.py:3047": lambda c, kind: c["m"] == "taylor" and ((kind == "single-time" and c["x"] in TIME_AXES)
-                                                                                      or (kind == "single-location" and c["x"] in LOC_AXES)),
 }
 
 
